@@ -38,19 +38,19 @@ claim('C02', 'proof', K1 + '; ' + K2,
       'zlib.decompressobj assumed (documented contract); address_offsets completeness (every containing segment is yielded) not proved; binutils rule scoped to the four condition groups of the statement')
 claim('C03', 'proof', K1 + '; ' + K2 + '; ' + BD,
       'Elf_Sym (both classes, bit structs), syminfo, hash headers K2; symbol addressing by sh_entsize, names through the linked string table, index section, syminfo; SysV and GNU hash functions proved equal to the standard 32-bit functions for every name; GNU symbol-count recovery proved (walks the highest bucket chain to its end bit), SysV count; linked-section validators',
-      'hash-lookup completeness: the GNU chain walk is under contract (every chain entry examined at the right position; found and fixed a shared-stream defect), the bloom filter test is an ASSUMED contract and SysV chains are not under contract -- both covered by the bounded hash differential (tables built from the specification, engineered collisions); get_symbol_by_name map construction not under contract')
+      'hash lookups: the GNU chain walk (found and fixed a shared-stream defect) and the SysV chain walk are under contract (every index on the chain examined, candidates are the symbols of those indices; no termination claim for cyclic SysV chains); the bloom filter test is an ASSUMED contract, covered with the end-to-end behaviour by the bounded hash differential (tables built from the specification, engineered collisions); get_symbol_by_name map construction not under contract')
 claim('C08', 'proof', K1 + '; ' + K2 + '; ' + GR + '; ' + BD,
       'Elf_Rel/Rela/Relr incl. MIPS64 layout and r_info lambdas K2 (lambdas proved by z3); relocation table addressing; RELR expansion proved by step refinement (anchor/bitmap/base advance); every supported (machine, type) recipe: width, addend source, and calc function proved equal to the psABI formula for all operands',
       '_do_apply_relocation / find_relocations_for_section / apply_section_relocations are not under K1 contract: covered by a bounded differential (objects written by an independent ELF writer for every supported (machine, type), result compared with the ABI formula); MIPS RELA in-place addend is a recorded known finding')
 claim('C09', 'proof', K1 + '; ' + K2 + '; ' + BD,
       'Elf_Dyn K2 incl. machine/OS specific tag tables; raw tag addressing, walk to DT_NULL (with termination variant), table pointer lookup (first entry bearing the tag) mapped through loadable segments, string tags through the dynamic string table, tag count; GNU/SysV symbol count',
-      '_get_stringtable assumed; get_relocation_tables, iter_tags (DynamicTag construction over the walk), DynamicSegment.num_symbols fallback path / get_symbol / constructors are not under K1 contract: covered by the bounded differential of section-less images (independent ELF writer: PT_LOAD + PT_DYNAMIC, string/symbol/hash/REL/RELA/JMPREL tables)')
+      '_get_stringtable assumed; the public iter_tags is proved to wrap exactly the raw walk; get_relocation_tables, DynamicSegment.num_symbols fallback path / get_symbol / constructors are not under K1 contract: covered by the bounded differential of section-less images (independent ELF writer: PT_LOAD + PT_DYNAMIC, string/symbol/hash/REL/RELA/JMPREL tables)')
 claim('C13', 'proof', K1 + '; ' + K2 + '; ' + BD,
       'aranges set parsing (alignment, tuple walk to the (0,0) terminator, appended entries), bisect lookup under disjointness, unit cache representation invariant with RI-preserving interference at yields, offset-exact and containing lookups; headers K2',
       'NameLUT is not under K1 contract (string-keyed dictionary built in a nested loop): covered by the bounded name-table differential (UTF-8 names, several sets); _parse_CU_at_offset is checked (unit header layout K2, DWARFStructs construction modelled); float ceil exact below 2^53; 32-bit DWARF sets; disjoint ranges assumed for the lookup')
 claim('C15', 'proof', K1 + '; ' + K2,
       'version records K2; entry and auxiliary chains by displacement (recursive offset spec), names via linked string table, requirement names, definition index resolution, versym entries, linked-section validation',
-      'GNUVerNeedSection.get_version is under contract (searches every entry and auxiliary); has_indexes not under contract')
+      'GNUVerNeedSection.get_version (searches every entry and auxiliary) and has_indexes (False only if every vna_other is 0; memoised) are under contract')
 claim('C20', 'proof', K1 + '; ' + K2 + '; ' + GR,
       'prel31; index entry classification and byte-code unpacking (all models, unbounded word loop); byte-code disassembler: every 1- and 2-byte instruction enumerated exhaustively against the EHABI 9.3 table; attribute value kinds per tag (ARM, RISC-V) incl. number lists by loop invariant; subsection and sub-subsection walkers by displacement with interference at yields',
       'ULEB operand of opcode 0xb2 and instruction sequences are bounded stand-ins (reported separately); _make_attributes walker and mnemonic text have no independent oracle')
